@@ -15,6 +15,7 @@ CONSTANTS
   MaxArr = 3
   ArrMenu = {"resp", "notif", "close"}
   ScriptLen = 18
+  HoldGate = 30
   FaultGate = 40
 INIT GInit
 NEXT GNext
